@@ -95,9 +95,14 @@ def gen_exec():
     main = next(n for n in ctree.body if isinstance(n, ast.FunctionDef) and n.name == "main")
     fast = False
     for n in ast.walk(main):
-        if isinstance(n, ast.Call) and getattr(n.func, "attr", None) == "exit" and n.args and isinstance(n.args[0], ast.Call) \
-                and getattr(n.args[0].func, "id", None) == "execute":
-            fast = True
+        if isinstance(n, ast.If):
+            for c in ast.walk(n):
+                if isinstance(c, ast.Call) and getattr(c.func, "attr", None) == "exit" and c.args and isinstance(c.args[0], ast.Call) \
+                        and getattr(c.args[0].func, "id", None) == "execute":
+                    cond = ast.unparse(n.test)
+                    if cond != "len(raw_args) == 1 and raw_args[0] not in flaglist":
+                        raise ValueError("cli.main fast-path condition changed: " + cond)
+                    fast = True
     L = [HEADER, "namespace KaVerif.Gen.Exec\n"]
 
     def hl(hs):
